@@ -100,7 +100,7 @@ class Comp(object):
 
 
 class Graph(object):
-    def __init__(self, desc, hashes=None, name_tag=None):
+    def __init__(self, desc, hashes=None, name_tag=None, name_order=None):
         self.desc = desc
         self.log = []              # ("attempt"|"attempt-end"|"invoke"|"turn"|"raise", idx, ...)
         self.raised = []           # (idx, exception instance, kind) for every exception a body raised
@@ -111,7 +111,9 @@ class Graph(object):
         n = len(desc["nodes"])
         hashes = list(hashes) if hashes is not None else list(range(n))
         for i, nd in enumerate(desc["nodes"]):
-            name = "%s_n%d" % (tag, i)
+            # name_order lets a driver make the lexicographic name order differ from the index
+            # (= a topological) order, so "sorted by name" is not accidentally a valid schedule
+            name = "%s_%s_n%d" % (tag, "zyxwvutsrq"[name_order[i]], i) if name_order else "%s_n%d" % (tag, i)
             c = Comp(self, i, name, hashes[i])
             self.nodes.append(c)
             T = TYPES[nd["t"]]
